@@ -1,1 +1,252 @@
-//! stub
+//! CLI reference model: what the manual (doc/xt.1, --help) promises for an
+//! argument vector and a set of inputs, computed without any of xt's CLI code:
+//! argv is tokenised with the `lexopt` crate and the rules are applied left to
+//! right; translations are performed by calling the xt *library* in-process in
+//! the supply mode the CLI would use (slice for regular files, reader for
+//! standard input and FIFOs).
+
+use std::collections::BTreeMap;
+
+use crate::fmts::Fmt;
+use crate::mon::{MonWriter, Sched, SchedReader};
+use crate::procmon::{ProcOut, Status, StdoutKind};
+use crate::run::guarded;
+
+#[derive(Clone, Debug, PartialEq)]
+pub enum HelpKind {
+    Short,
+    Long,
+    Version,
+}
+
+#[derive(Clone, Debug, PartialEq)]
+pub enum CliClass {
+    /// Invalid command line: exit 2, usage on stderr, nothing on stdout.
+    Usage(String),
+    Help(HelpKind),
+    Run { from: Option<Fmt>, to: Fmt, paths: Vec<String> },
+}
+
+fn parse_format(s: &str) -> Option<Fmt> {
+    // names and aliases from the manual
+    match s {
+        "j" | "json" => Some(Fmt::Json),
+        "m" | "msgpack" => Some(Fmt::Msgpack),
+        "t" | "toml" => Some(Fmt::Toml),
+        "y" | "yaml" => Some(Fmt::Yaml),
+        _ => None,
+    }
+}
+
+/// Classifies an argument vector (without argv[0]).
+pub fn classify(argv: &[String]) -> CliClass {
+    use lexopt::prelude::*;
+    let mut parser = lexopt::Parser::from_args(argv.iter().map(|s| s.as_str()));
+    let mut from: Option<Fmt> = None;
+    let mut to: Option<Fmt> = None;
+    let mut paths = vec![];
+    loop {
+        let arg = match parser.next() {
+            Ok(Some(a)) => a,
+            Ok(None) => break,
+            Err(e) => return CliClass::Usage(format!("tokenizer: {e}")),
+        };
+        match arg {
+            Short('f') | Short('t') => {
+                let is_f = matches!(arg, Short('f'));
+                if (is_f && from.is_some()) || (!is_f && to.is_some()) {
+                    return CliClass::Usage("option given more than once".into());
+                }
+                let v = match parser.value() {
+                    Ok(v) => v,
+                    Err(_) => return CliClass::Usage("missing option value".into()),
+                };
+                let Some(f) = v.to_str().and_then(parse_format) else { return CliClass::Usage("invalid format name".into()) };
+                if is_f {
+                    from = Some(f)
+                } else {
+                    to = Some(f)
+                }
+            }
+            Value(v) => paths.push(v.to_string_lossy().into_owned()),
+            Short('V') | Long("version") => return CliClass::Help(HelpKind::Version),
+            Short('h') => return CliClass::Help(HelpKind::Short),
+            Long("help") => return CliClass::Help(HelpKind::Long),
+            _ => return CliClass::Usage("unknown option".into()),
+        }
+    }
+    CliClass::Run { from, to: to.unwrap_or(Fmt::Json), paths }
+}
+
+/// What a path names in the scratch directory of a run.
+#[derive(Clone, Debug)]
+pub enum PathKind {
+    Regular(Vec<u8>),
+    Fifo(Vec<u8>),
+    Missing,
+    Directory,
+}
+
+pub fn extension_format(path: &str) -> Option<Fmt> {
+    // the last extension, matched case-insensitively
+    let name = path.rsplit('/').next().unwrap_or(path);
+    let (stem, ext) = name.rsplit_once('.')?;
+    if stem.is_empty() {
+        return None; // ".json" is a hidden file without extension
+    }
+    match ext.to_ascii_lowercase().as_str() {
+        "json" => Some(Fmt::Json),
+        "msgpack" => Some(Fmt::Msgpack),
+        "toml" => Some(Fmt::Toml),
+        "yaml" | "yml" => Some(Fmt::Yaml),
+        _ => None,
+    }
+}
+
+#[derive(Clone, Debug)]
+pub struct Expected {
+    pub exit: i32,
+    /// stdout must start with these bytes (complete outputs of inputs that finished)
+    pub stdout_floor: Vec<u8>,
+    /// ... and must be a prefix of these (floor plus whatever the failing input wrote before failing)
+    pub stdout_ceiling: Vec<u8>,
+    /// for exit 1: the input the message must name ("in <path>" / "standard input"), if the failure belongs to one
+    pub names: Option<String>,
+    pub why: String,
+    /// per input: resolved source format (None = detection) and supply mode, for evidence
+    pub inputs: Vec<(String, String, &'static str)>,
+}
+
+/// Emulates a Run-class invocation with the library.
+pub fn emulate(from: Option<Fmt>, to: Fmt, paths: &[String], files: &BTreeMap<String, PathKind>, stdin: &[u8], stdout_kind: &StdoutKind) -> Expected {
+    let mut exp = Expected { exit: 0, stdout_floor: vec![], stdout_ceiling: vec![], names: None, why: String::new(), inputs: vec![] };
+    if *stdout_kind == StdoutKind::Pty && to == Fmt::Msgpack {
+        exp.exit = 1;
+        exp.why = "MessagePack is never written to a terminal".into();
+        return exp;
+    }
+    let w = MonWriter::new();
+    let log = w.log_handle();
+    let mut tr = xt::Translator::new(w, to.xt());
+    let inputs: Vec<String> = if paths.is_empty() { vec!["-".to_string()] } else { paths.to_vec() };
+    let mut stdin_used = false;
+    for p in &inputs {
+        let is_stdin = p == "-";
+        let (label, data, reader, open_err): (String, Vec<u8>, bool, Option<&str>) = if is_stdin {
+            ("standard input".into(), stdin.to_vec(), true, None)
+        } else {
+            match files.get(p) {
+                Some(PathKind::Regular(b)) => (format!("in {p}"), b.clone(), b.is_empty(), None), // an empty file cannot be mapped: reader fallback
+                Some(PathKind::Fifo(b)) => (format!("in {p}"), b.clone(), true, None),
+                Some(PathKind::Directory) => (format!("in {p}"), vec![], true, Some("directory")),
+                Some(PathKind::Missing) | None => (format!("in {p}"), vec![], true, Some("missing")),
+            }
+        };
+        if open_err == Some("missing") {
+            exp.exit = 1;
+            exp.names = Some(label);
+            exp.why = "input cannot be opened".into();
+            break;
+        }
+        if is_stdin {
+            if stdin_used {
+                exp.exit = 1;
+                exp.names = None;
+                exp.why = "standard input named twice".into();
+                break;
+            }
+            stdin_used = true;
+        }
+        if open_err == Some("directory") {
+            exp.exit = 1;
+            exp.names = Some(label);
+            exp.why = "input is a directory".into();
+            break;
+        }
+        let resolved = from.or_else(|| if is_stdin { None } else { extension_format(p) });
+        exp.inputs.push((p.clone(), crate::fmts::from_name(resolved).to_string(), if reader { "reader" } else { "slice" }));
+        let v = if reader {
+            guarded(|| tr.translate_reader(SchedReader::new(&data, Sched::All), resolved.map(Fmt::xt)))
+        } else {
+            guarded(|| tr.translate_slice(&data, resolved.map(Fmt::xt)))
+        };
+        if !v.is_ok() {
+            exp.exit = 1;
+            exp.names = Some(label);
+            exp.why = format!("translation fails: {}", v.show());
+            break;
+        }
+        exp.stdout_floor = log.borrow().bytes.clone();
+    }
+    exp.stdout_ceiling = log.borrow().bytes.clone();
+    exp
+}
+
+/// Judges an observed process outcome against the expectation. Returns a
+/// description of the first discrepancy.
+pub fn judge_run(out: &ProcOut, exp: &Expected) -> Result<(), String> {
+    match &out.status {
+        Status::Exit(c) if *c == exp.exit => {}
+        other => return Err(format!("wait status {} (expected exit {}: {})", other.show(), exp.exit, exp.why)),
+    }
+    if !out.stdout.starts_with(&exp.stdout_floor) {
+        let at = out.stdout.iter().zip(exp.stdout_floor.iter()).position(|(a, b)| a != b).unwrap_or(out.stdout.len().min(exp.stdout_floor.len()));
+        return Err(format!("stdout ({} bytes) does not start with the {} bytes of completed translations (first difference at byte {at})", out.stdout.len(), exp.stdout_floor.len()));
+    }
+    if !exp.stdout_ceiling.starts_with(&out.stdout) {
+        return Err(format!("stdout ({} bytes) carries bytes that are not translated data: [{}]", out.stdout.len(), crate::model::preview(&out.stdout, 120)));
+    }
+    if exp.exit == 0 {
+        if out.stdout != exp.stdout_ceiling {
+            return Err(format!("exit 0 but stdout has {} bytes, the translations have {}", out.stdout.len(), exp.stdout_ceiling.len()));
+        }
+        if !out.stderr.is_empty() {
+            return Err(format!("exit 0 with a message on stderr: [{}]", crate::model::preview(&out.stderr, 120)));
+        }
+    } else {
+        let err = String::from_utf8_lossy(&out.stderr);
+        if !err.starts_with("xt error") {
+            return Err(format!("stderr does not begin 'xt error': [{}]", crate::model::preview(&out.stderr, 120)));
+        }
+        if let Some(n) = &exp.names {
+            let first = err.lines().next().unwrap_or("");
+            if !first.contains(n.as_str()) {
+                return Err(format!("the message does not name the offending input ({n}): [{first}]"));
+            }
+        }
+    }
+    Ok(())
+}
+
+pub fn judge_usage(out: &ProcOut) -> Result<(), String> {
+    if out.status != Status::Exit(2) {
+        return Err(format!("wait status {} (expected exit 2 for an invalid command line)", out.status.show()));
+    }
+    if !out.stdout.is_empty() {
+        return Err(format!("invalid command line but stdout is not empty: [{}]", crate::model::preview(&out.stdout, 120)));
+    }
+    let err = String::from_utf8_lossy(&out.stderr);
+    if !err.contains("Usage:") {
+        return Err(format!("no usage message on stderr: [{}]", crate::model::preview(&out.stderr, 160)));
+    }
+    Ok(())
+}
+
+pub fn judge_help(out: &ProcOut, kind: &HelpKind) -> Result<(), String> {
+    if out.status != Status::Exit(0) {
+        return Err(format!("wait status {} (expected exit 0 for help/version)", out.status.show()));
+    }
+    let so = String::from_utf8_lossy(&out.stdout);
+    let ok = match kind {
+        HelpKind::Version => so.starts_with("xt ") && so.trim_end().lines().count() == 1 && so.split_whitespace().nth(1).map(|v| v.chars().next().map(|c| c.is_ascii_digit()).unwrap_or(false)).unwrap_or(false),
+        HelpKind::Short => so.starts_with("Usage:") && so.contains("--help"),
+        HelpKind::Long => so.contains("USAGE") && so.contains("OPTIONS") && so.contains("FORMATS"),
+    };
+    if !ok {
+        return Err(format!("stdout is not the requested {:?} text: [{}]", kind, crate::model::preview(&out.stdout, 160)));
+    }
+    if !out.stderr.is_empty() {
+        return Err(format!("help/version with a message on stderr: [{}]", crate::model::preview(&out.stderr, 120)));
+    }
+    Ok(())
+}
